@@ -190,6 +190,10 @@ def run(plan):
                 if op.get("lose_ack") and kind == "apply" and changed:
                     # the acknowledgement of the property write is lost (all transmissions unanswered)
                     aop["net"] = [{}, {"drop": True}, {"drop": True}, {"drop": True}]
+                if op.get("nak") and kind == "apply" and changed:
+                    # the unit refuses these writes (execution-error result in its acknowledgement)
+                    dev.nak_props = set(changed)
+                    w.fire("property_write_refused_by_unit")
                 cancel_connect = bool(op.get("cancel_in_connect") and kind == "apply" and changed)
                 if cancel_connect:
                     # the device closes the connection after answering the state command; the property write has to
@@ -199,6 +203,7 @@ def run(plan):
                     aop["cancel"] = 0.25
                 nlog = len(dev.log)
                 o = await s.do(aop)
+                dev.nak_props = set()
                 if cancel_connect:
                     if o.kind not in ("cancelled", "ok"):
                         res.fail(f"cancelled apply raised {o.exc_type}", repr(o.exc))
@@ -251,6 +256,15 @@ def run(plan):
                 await asyncio.sleep(op["d"])
             elif kind == "refresh":
                 rop = {"op": "refresh"}
+                if op.get("lose_props") and supported_ids(p):
+                    # the property query of this poll goes unanswered (all three transmissions)
+                    rop["net"] = [{}, {"drop": True}, {"drop": True}, {"drop": True}]
+                    o = await s.do(rop)
+                    if o.kind != "ok":
+                        res.fail(f"refresh raised {o.exc_type}", repr(o.exc))
+                        return
+                    w.fire("property_query_unanswered")
+                    continue
                 if op.get("dup_props_late") and supported_ids(p):
                     # the device re-sends its property report a few seconds later (a late duplicate)
                     rop["net"] = [{}, {"dup_late": op["dup_props_late"]}]
@@ -354,6 +368,22 @@ def gen(j, rng):
         attr, vals = rng.choice(setters)
         ops += [{"op": "apply"}, {"op": "refresh", "dup_props_late": 3.0}, {"op": "set", "attr": attr, "value": rng.choice(vals)},
                 {"op": "apply"}, {"op": "idle", "d": 4.0}, {"op": "refresh"}]
+    if rng.random() < 0.12 and ids:
+        # isolated hiccups over the life of the object: the property query goes unanswered now and then
+        n = rng.randint(2, 4)
+        for k in range(n):
+            ops.insert(rng.randrange(0, len(ops) + 1), {"op": "refresh", "lose_props": True})
+        pid = rng.choice(sorted(ids - {0x00E3, 0x0039, 0x0042, 0x0018}) or [0x0039])
+        v = bytes([rng.choice(ANGLES)]) if pid in (0x0009, 0x000A) else bytes([rng.choice(RATES5 if p["rate"] == 5 else RATES2)]) \
+            if pid == 0x0048 else bytes([rng.randint(1, 4)]) if pid == 0x0043 else bytes([rng.randint(0, 1)])
+        ops += [{"op": "apply"}, {"op": "dev_store", "pid": pid, "value": v.hex()}]
+    if rng.random() < 0.12 and setters:
+        # the unit refuses one property write; later writes are encoded as before
+        attr, vals = rng.choice(setters)
+        ops.insert(rng.randrange(0, len(ops) + 1), {"op": "apply", "nak": True})
+        ops.insert(0, {"op": "set", "attr": attr, "value": rng.choice(vals)})
+        attr2, vals2 = rng.choice(setters)
+        ops += [{"op": "refresh"}, {"op": "set", "attr": attr2, "value": rng.choice(vals2)}]
     ops += [{"op": "apply"}, {"op": "refresh"}, {"op": "apply"}]
     cfg = {"version": rng.choice([2, 2, 3]), "caps_pages": [[profile_caps(p), None]], "props": store}
     if rng.random() < 0.15:
